@@ -6,7 +6,7 @@ package pegnet
 // Contracts for the verification machinery in /verif (govc). Comment-only file:
 // it adds no executable code and is compiled only with the build tag `verif`.
 
-//@ props C13 C17 C08
+//@ props C13 C17 C08 C03 C10
 //@
 //@ func IsRejectedTx
 //@   ensures @nil err == nil ==> result0 == 1 && result1 == nil
@@ -425,6 +425,8 @@ package pegnet
 //@   loop 2 invariant @capitalisation 0 <= iter && iter <= len(rates) && totalCapitalization.V == capUpTo(rates, iter, issuance)
 //@   loop 2 invariant @names_kept forall k int :: 0 <= k && k < len(rates) ==> rates[k].Value == old(rates[k].Value) && (old(rates[k].Name) == "PEG" ==> rates[k].Name == "PEG") && (old(rates[k].Name) != "PEG" ==> rates[k].Name == concat("p", old(rates[k].Name)))
 //@   loop 2 invariant @other_heights (forall x int :: x != height ==> (Lrated[x] <==> old(Lrated)[x]) && Lrate[x] == old(Lrate)[x]) && ratePEG != nil && fresh(ratePEG) && totalCapitalization != nil && fresh(totalCapitalization) && issuance != nil
+//@   loop 1 no-break
+//@   loop 2 no-break
 //@
 //@ // the PEG row: 0 in the zero phase, market-cap quotient (0 without PEG supply) in the equation phase, the reported value when floating
 //@ site-requires (*Pegnet).InsertRates | (*Pegnet).insertRate | 2
